@@ -3,11 +3,15 @@
 package zzverif
 
 import (
+	"context"
 	"encoding/json"
 	"fmt"
+	"sync"
 	"testing"
 	"time"
 
+	"github.com/free5gc/chf/pkg/abmf"
+	"github.com/free5gc/chf/pkg/rf"
 	"verif.local/vs"
 )
 
@@ -43,11 +47,12 @@ func c18Step(w *World, h *HistRun, i int) (fs []Finding) {
 }
 
 type c18RunArgs struct {
-	N      int   `json:"n"`
-	UEs    int   `json:"ues"`
-	GapMs  int64 `json:"gapMs"` // virtual time between requests
-	Settle int   `json:"settleS"`
-	Subs   int   `json:"subs,omitempty"` // >0: that many different subscribers, each served once (create, update, release)
+	N      int    `json:"n"`
+	UEs    int    `json:"ues"`
+	GapMs  int64  `json:"gapMs"` // virtual time between requests
+	Settle int    `json:"settleS"`
+	Subs   int    `json:"subs,omitempty"`   // >0: that many different subscribers, each served once (create, update, release)
+	Outage string `json:"outage,omitempty"` // "rf" / "abmf": that peer is down for the first N updates, then comes up
 }
 
 type c18RunOut struct {
@@ -65,6 +70,9 @@ func c18RunJob(t *testing.T, raw json.RawMessage) (any, error) {
 	var out c18RunOut
 	if a.Subs > 0 {
 		return c18SubscribersJob(t, a)
+	}
+	if a.Outage != "" {
+		return c18OutageJob(t, a)
 	}
 	supis := []string{supiA, supiB}[:a.UEs]
 	cfg := WorldCfg{Accounts: []Account{{supiA, 1, "100000000", "1"}, {supiB, 1, "100000000", "1"}}, HorizonS: 24 * 3600, StepCap: 50_000_000}
@@ -103,6 +111,68 @@ func c18RunJob(t *testing.T, raw json.RawMessage) (any, error) {
 				time.Sleep(time.Duration(a.Settle) * time.Second)
 				vs.Quiesce()
 			}
+			s := w.Snapshot(true)
+			out.After = [2]int{s.Open, s.Gor}
+		})
+	}, nil)
+	if o.Panic != "" || o.Res.Err != "" {
+		out.Engine = o.Panic + o.Res.Err
+	}
+	if o.Res.Deadlock {
+		out.Fail = append(out.Fail, fmt.Sprint("blocked forever: ", o.Res.Blocked))
+	}
+	return out, nil
+}
+
+// c18OutageJob: a peer is down while N updates are processed (every dial to it is refused), then comes up.
+// The resources held after each failed update must not grow, and once the peer is back updates are granted again.
+func c18OutageJob(t *testing.T, a c18RunArgs) (any, error) {
+	var out c18RunOut
+	cfg := WorldCfg{Accounts: []Account{{supiA, 1, "100000000", "1"}}, HorizonS: 24 * 3600, StepCap: 50_000_000, NoRF: a.Outage == "rf", NoABMF: a.Outage == "abmf"}
+	o := runWorld(t, cfg, nil, func(w *World) {
+		vs.Go("T1", func() {
+			h := w.ExecOps([]string{supiA}, []Op{mkCreate(0, "smf1")}, 1, false)
+			if len(h.Sess) == 0 {
+				out.Fail = append(out.Fail, "create failed")
+				return
+			}
+			upd := func(n int) (int, int32) {
+				op := Op{K: "update", S: 0, MUs: []MU{{RG: 1, Req: 50, Conts: []Cont{{Vol: 0, Seq: int32(n)}}}}, Seq: int32(n)}
+				r := w.Do("POST", ccBase+"/chargingdata/"+h.Sess[0].Ref+"/update", op.Request(supiA), nil)
+				g := int32(-1)
+				units, _, _ := parseUnits(r.Body)
+				for _, x := range units {
+					if x.RG == 1 {
+						g = x.Granted
+					}
+				}
+				vs.Quiesce()
+				return r.Code, g
+			}
+			for n := 0; n < a.N; n++ {
+				upd(n)
+				s := w.Snapshot(true)
+				out.Open = append(out.Open, s.Open)
+				out.Gor = append(out.Gor, s.Gor)
+				out.Dials = s.Dials
+			}
+			// the peer comes (back) up
+			var wg sync.WaitGroup
+			wg.Add(1)
+			if a.Outage == "rf" {
+				rf.OpenServer(context.Background(), &wg)
+			} else {
+				abmf.OpenServer(context.Background(), &wg)
+			}
+			time.Sleep(time.Second)
+			vs.Quiesce()
+			for n := 0; n < 3; n++ {
+				if code, g := upd(a.N + n); code != 200 || g != 50 {
+					out.Fail = append(out.Fail, fmt.Sprintf("update %d after the %s peer came up (it had been down for %d updates) answered %d, granted %d of 50 requested units", n+1, a.Outage, a.N, code, g))
+				}
+			}
+			time.Sleep(time.Duration(a.Settle) * time.Second)
+			vs.Quiesce()
 			s := w.Snapshot(true)
 			out.After = [2]int{s.Open, s.Gor}
 		})
@@ -223,6 +293,14 @@ func init() {
 			sa := c18RunArgs{N: n, UEs: 1, Subs: n, Settle: 60}
 			jobs = append(jobs, Job{Kind: "c18run", Args: mustJSON(sa)})
 			descr = append(descr, sa)
+			if n <= 100 {
+				// a peer that is down for n/2 + 15 updates (20, 65), then comes up
+				for _, peer := range []string{"rf", "abmf"} {
+					oa := c18RunArgs{N: n/2 + 15, UEs: 1, Outage: peer, Settle: 60}
+					jobs = append(jobs, Job{Kind: "c18run", Args: mustJSON(oa)})
+					descr = append(descr, oa)
+				}
+			}
 		}
 		pool.Timeout = 40 * time.Minute
 		var runs []map[string]any
@@ -232,6 +310,9 @@ func init() {
 			name := fmt.Sprintf("N=%d subscribers=%d gap=%dms", a.N, a.UEs, a.GapMs)
 			if a.Subs > 0 {
 				name = fmt.Sprintf("%d different subscribers, one session each", a.Subs)
+			}
+			if a.Outage != "" {
+				name = fmt.Sprintf("%s peer down for %d updates, then up", a.Outage, a.N)
 			}
 			if r.Crash != "" {
 				rep.Finding("process-crash-or-timeout", name+": "+oneLine(r.Crash, 300), map[string]any{"job": json.RawMessage(jobs[i].Args), "kind": "c18run"})
